@@ -25,9 +25,60 @@ ASSUMPTIONS = ["index objects are observed by wrapping the harness' own index de
 
 
 @st.composite
+def edge_cases(draw):
+    """two small shapes of program in which a backward rule is tempted to hand on, or to write into, the incoming
+    gradient itself: a view tensor that feeds several operand slots of the terminal op, and a reduction over an axis
+    of length 1 (a single candidate for max/min, zero variance for var/std)"""
+    from vf import gen
+    from vf.gen import Builder, draw_shape
+
+    b = Builder(draw, max_elems=24, allow_int=False)
+    b.allow_const_flag = False
+    b.recency_bias = False
+    shape = draw_shape(draw, max_ndim=3, max_side=3, cap=18, min_side=1) or [2]
+    kind = draw(st.sampled_from(["view_fanout", "view_fanout", "unit_axis_reduce"]))
+    h = None
+    if kind == "view_fanout":
+        b.leaf("var", shape)
+        v = gen.step_view(b)
+        if v is None:
+            v = b.op("getitem", [0], {"index": {"t": True, "c": [["e"]]}})
+        how = draw(st.sampled_from(["add_self", "add_scaled", "mul_self", "sub_neg"]))
+        if how == "add_self":
+            h = b.op("add", [v, v])
+        elif how == "add_scaled":
+            m = b.op("multiply", [v, b.scalar_leaf(2)])
+            h = b.op("add", [v, m]) if m is not None else None
+        elif how == "mul_self":
+            h = b.op("multiply", [v, v])
+        else:
+            n = b.op("negative", [v])
+            h = b.op("subtract", [v, n]) if n is not None else None
+        name = "(view fan-out)"
+    else:
+        ax = draw(st.integers(0, len(shape)))
+        x = b.leaf("var", shape[:ax] + [1] + shape[ax:])
+        name = draw(st.sampled_from(["std", "var", "max", "min", "sum", "mean", "prod"]))
+        p = {"axis": ax, "keepdims": draw(st.booleans())}
+        if name in ("std", "var"):
+            p["ddof"] = 0
+        h = b.op(name, [x], p)
+    if h is None:
+        x = b.leaf("var", [2])
+        h = b.op("add", [x, x])
+        name = "(fallback)"
+    shp = b.shape(h)
+    n = int(np.prod(shp)) if len(shp) else 1
+    vals = [k / 4.0 for k in draw(st.lists(st.integers(-12, 12), min_size=n, max_size=n))]
+    return {"prog": b.prog, "L": h, "seed": {"kind": "array", "v": vals, "shape": list(shp), "dtype": "float64"}, "op": name}
+
+
+@st.composite
 def cases(draw):
-    src = draw(st.sampled_from(["op", "op", "op", "layer", "dag"]))
-    if src == "op":
+    src = draw(st.sampled_from(["op", "op", "op", "layer", "dag", "edge"]))
+    if src == "edge":
+        c = draw(edge_cases())
+    elif src == "op":
         c = draw(c02.cases())
     elif src == "layer":
         c = draw(c02_layers.layer_cases())
